@@ -127,6 +127,7 @@ class Index:
         self.first_to_def = {}  # declaration id -> definition node
         self.pattern = set()   # ids of dependent (uninstantiated) decls
         self.parent = {}       # id -> enclosing decl id (lexical)
+        self.aliases = {}      # alias name (plain and qualified) -> {underlying type strings}
         self._walk(root, '', False, None)
         self._fix_out_of_line()
 
@@ -156,6 +157,8 @@ class Index:
     def _walk(self, n, ctx, dependent, parent_id):
         kind = n.get('kind')
         nid = n.get('id')
+        if nid and nid in self.by_id and 'inner' not in n and 'loc' not in n:
+            return   # reference-only repeat of a declaration dumped in full elsewhere
         if nid and kind and kind.endswith('Decl'):
             self.by_id[nid] = n
             self.parent[nid] = parent_id
@@ -202,6 +205,11 @@ class Index:
             return
         elif kind in ('VarDecl', 'FieldDecl', 'TypedefDecl', 'TypeAliasDecl'):
             self.qname[nid] = ctx + (name or '')
+            if kind in ('TypedefDecl', 'TypeAliasDecl') and not dep and name and 'type' in n:
+                tt = n['type'].get('desugaredQualType') or n['type'].get('qualType')
+                if tt and tt != name:
+                    self.aliases.setdefault(name, set()).add(tt)
+                    self.aliases.setdefault(ctx + name, set()).add(tt)
             for c in n.get('inner', []):
                 self._walk_body(c, nid, dep)
             return
@@ -332,6 +340,7 @@ class Lowerer:
         self.stub_protos = {}
         self.drop_calls = set(self.spec.get('drop_calls', []))
         self.struct_copy_ok = set()
+        self.stubs_used = set()
 
     # ---- types
     def ty(self, tnode_or_str):
@@ -367,6 +376,9 @@ class Lowerer:
         if '(' in s and not s.startswith('(anonymous') and '(anonymous namespace)' not in s and '(lambda' not in s:
             raise Unsupported('function/pointer-to-function type %r' % s)
         s2 = re.sub(r'^(\s*\b(const|volatile|struct|class|enum|typename)\b\s*)+', '', s).strip()
+        s2 = self.resolve_aliases(s2)
+        if s2 != s and (s2.endswith(('*', '&', ']')) or re.search(r'\bconst$', s2)):
+            return self.parse_type(s2)
         if s2 in BUILTIN:
             return Ty('b', name=BUILTIN[s2])
         key = strip_const_deep(s2)
@@ -379,6 +391,33 @@ class Lowerer:
                 return Ty('enum', name=BUILTIN.get(under, 'int'), key=q)
         key = self.canon_record(key)
         return Ty('rec', name=mangle(key), key=key)
+
+    def resolve_aliases(self, s):
+        """replace typedef / alias names the AST left unresolved (reference and
+        template-argument positions) by their underlying types"""
+        al = self.idx.aliases
+        for _ in range(6):
+            changed = False
+
+            def rep(m):
+                nonlocal changed
+                tok = m.group(0)
+                if tok in BUILTIN:
+                    return tok
+                if tok.startswith('la::'):
+                    changed = True
+                    return 'linalg::' + tok[4:]
+                und = al.get(tok)
+                if und and len(und) == 1:
+                    changed = True
+                    return next(iter(und))
+                return tok
+            s2 = re.sub(r'[A-Za-z_][A-Za-z_0-9]*(::[A-Za-z_][A-Za-z_0-9]*)*', rep, s)
+            s2 = re.sub(r'\bSharedVec<(.*)>', lambda m: 'manifold::Vec<%s, true>' % m.group(1), s2)
+            if not changed and s2 == s:
+                break
+            s = s2
+        return s
 
     def canon_record(self, key):
         """resolve sugar the AST left in a type string: missing namespaces and
@@ -628,7 +667,7 @@ class Lowerer:
             rq = self.idx.qname[rec['id']]
             rt = self.parse_type(rq)
             f.record = rt
-            if kind != 'CXXConstructorDecl':
+            if kind != 'CXXConstructorDecl' or getattr(f, 'ctor_as_method', False):
                 params.append('%s* self' % self.cty(rt))
         for p in self.params_of(n):
             pt = self.ty(p['type'])
@@ -639,7 +678,13 @@ class Lowerer:
                 params.append(self.cdecl(Ty('ptr', to=pt.to), pname))
             else:
                 params.append(self.cdecl(pt, pname))
-        if kind == 'CXXConstructorDecl':
+        if kind == 'CXXConstructorDecl' and getattr(f, 'ctor_as_method', False):
+            kind = 'CXXMethodDecl'
+            rett = Ty('b', name='void')
+            retc = 'void'
+            f.void_ctor = True
+            self.note('constructor %s lowered as a method on an existing object: member initialisers dropped, entry state unconstrained' % f.cname)
+        elif kind == 'CXXConstructorDecl':
             rett = f.record
             retc = self.cty(rett)
         elif f.kind == 'region':
@@ -667,6 +712,10 @@ class Lowerer:
         # splice temps + ctor inits after the opening brace
         assert btxt.lstrip().startswith('{')
         i = btxt.index('{')
+        inj = self.spec.get('inject_entry', {}).get(f.cname)
+        if inj:
+            self.note('injected at entry of %s: %s' % (f.cname, inj))
+            out.append('  ' + inj)
         pre = tmpdecl + ('\n'.join(out) + '\n' if out else '')
         btxt = btxt[:i + 1] + '\n' + pre + btxt[i + 1:]
         guards = ''.join('#ifndef LOOPSPEC_%s_%d\n#define LOOPSPEC_%s_%d\n#endif\n' % (f.cname, k, f.cname, k)
@@ -738,6 +787,19 @@ class Lowerer:
         k = n.get('kind')
         I = self.ind(d)
         if k == 'CompoundStmt':
+            trunc = getattr(self.cur, 'truncate_after', None) if top else None
+            if trunc:
+                parts = []
+                for c in n.get('inner', []):
+                    parts.append(self.stmt(c, d + 1))
+                    if self.mentions_call(c, trunc):
+                        self.note('function %s truncated after the call to %s at %s: the rest of the body is not lowered' % (self.cur.cname, trunc, where(c)))
+                        parts.append(self.ind(d + 1) + 'return;\n')
+                        break
+                else:
+                    raise InfraError('contract no longer attached: truncation call %s not found in %s' % (trunc, self.cur.cname))
+                body = ''.join(parts)
+                return '%s{\n%s%s}\n' % (self.ind(d - 1), body, self.ind(d - 1))
             body = ''.join(self.stmt(c, d + 1) for c in n.get('inner', []))
             return '%s{\n%s%s}\n' % (self.ind(d - 1) if top else I, body, self.ind(d - 1) if top else I)
         if k == 'NullStmt':
@@ -756,7 +818,7 @@ class Lowerer:
             e = inner[0]
             if f.rett.kind == 'ref':
                 return self.line(n) + I + 'return %s;\n' % self.addr(e)
-            if f.node.get('kind') == 'CXXConstructorDecl':
+            if f.node.get('kind') == 'CXXConstructorDecl' and not getattr(f, 'void_ctor', False):
                 return self.line(n) + I + 'return self_v;\n'
             return self.line(n) + I + 'return %s;\n' % self.expr(e)
         if k == 'IfStmt':
@@ -832,10 +894,33 @@ class Lowerer:
         if k == 'AttributedStmt':
             return self.stmt(n['inner'][-1], d)
         # expression statement
-        txt = self.expr_stmt(n)
+        try:
+            txt = self.expr_stmt(n)
+        except Unsupported as ex:
+            why = self.droppable(n)
+            if why is None:
+                raise
+            self.note('DROPPED statement at %s (touches %s; its reads and its frame are not verified)' % (where(n), why))
+            return I + '/* dropped: statement on %s at %s */;\n' % (why, where(n))
         if txt is None:
             return ''
         return self.line(n) + I + txt + ';\n'
+
+    DROPPABLE = ('std::map<', 'std::unordered_map<', 'std::shared_ptr<', 'std::function<', 'std::basic_ostream',
+                 'tbb::', 'std::mutex', 'std::basic_string')
+
+    def droppable(self, n):
+        t = n.get('type', {})
+        s = (t.get('desugaredQualType') or '') + ' ' + (t.get('qualType') or '')
+        for d in self.DROPPABLE:
+            if d in s:
+                return d.rstrip('<')
+        for c in n.get('inner', []):
+            if isinstance(c, dict):
+                r = self.droppable(c)
+                if r:
+                    return r
+        return None
 
     def block(self, n, d):
         if n.get('kind') == 'CompoundStmt':
@@ -861,6 +946,11 @@ class Lowerer:
         if c.get('kind') == 'MemberExpr':
             return c.get('name')
         return None
+
+    def mentions_call(self, n, name):
+        if n.get('kind') in ('CallExpr', 'CXXMemberCallExpr') and self.callee_name(n) == name:
+            return True
+        return any(self.mentions_call(c, name) for c in n.get('inner', []) if isinstance(c, dict))
 
     def has_break_continue(self, n):
         k = n.get('kind')
@@ -917,6 +1007,15 @@ class Lowerer:
                 s += self.block(body, d + 1) + I + '}\n'
             return s
         raise Unsupported('range-for over non-literal range at %s' % where(n))
+
+    def init_list_exprs(self, e):
+        e = self.strip(e)
+        k = e.get('kind')
+        if k in ('CXXStdInitializerListExpr', 'CXXConstructExpr') and len(e.get('inner', [])) == 1:
+            return self.init_list_exprs(e['inner'][0])
+        if k == 'InitListExpr':
+            return [self.expr(c) for c in e.get('inner', [])]
+        return None
 
     def init_list_consts(self, e):
         if e is None:
@@ -1336,9 +1435,10 @@ class Lowerer:
         if md is not None and md.get('kind') == 'VarDecl':
             return self.global_var(md)   # static data member
         b = self.expr(base)
-        if e.get('isArrow'):
-            return '%s->%s' % (b, name)
-        return '%s.%s' % (b, name)
+        txt = '%s->%s' % (b, name) if e.get('isArrow') else '%s.%s' % (b, name)
+        if md is not None and md.get('kind') == 'FieldDecl' and self.ty(md['type']).kind == 'ref':
+            return '(*%s)' % txt   # reference member is stored as a pointer
+        return txt
 
     def e_UnaryExprOrTypeTraitExpr(self, e):
         if e.get('name') == 'sizeof':
@@ -1397,6 +1497,9 @@ class Lowerer:
         r = c['referencedDecl']
         return self.call_function(e, r, None, args)
 
+    def e_UserDefinedLiteral(self, e):
+        return self.e_CallExpr(e)
+
     def call_function(self, e, r, obj, args):
         """r: referencedDecl stub; obj: C text of object pointer for methods or None"""
         rid = r['id']
@@ -1432,10 +1535,24 @@ class Lowerer:
         return txt
 
     def stub_call(self, e, key, d, r, obj, args):
-        cname = self.stubs[key]
-        a = self.args_for(d, args) if d is not None else [self.expr(x) for x in args]
-        if obj is not None:
+        st = self.stubs[key]
+        if isinstance(st, dict):
+            cname = st['cname']
+        else:
+            cname, st = st, {}
+        if '{rec}' in cname:
+            rec = self.idx.record_of_method(d) if d is not None else None
+            rq = self.idx.qname.get(rec['id']) if rec else ''
+            cname = cname.replace('{rec}', mangle(self.canon_record(strip_const_deep(rq))))
+        if st.get('args') == 'drop':
+            a = []
+        elif st.get('args') == 'self':
+            a = []
+        else:
+            a = self.args_for(d, args) if d is not None else [self.expr(x) for x in args]
+        if obj is not None and st.get('args') != 'drop':
             a = [obj] + a
+        self.stubs_used.add(cname)
         self.note('call to %s replaced by assumed-contract stub %s at %s' % (key, cname, where(e)))
         rt = self.ty(e['type'])
         txt = '%s(%s)' % (cname, ', '.join(a))
@@ -1509,10 +1626,21 @@ class Lowerer:
             if len(args) == 1:
                 return self.expr(args[0])
             raise Unsupported('construct of non-record at %s' % where(e))
+        if len(args) == 1 and t.key.startswith('std::vector<') and self.ty(args[0]['type']).noref().name == t.name:
+            self.need_record(t)
+            et = self.parse_type(split_top(t.key[len('std::vector<'):-1])[0])
+            ect = self.cty(et)
+            m = mangle(ect)
+            h = self.helper('stdvec_copy_%s' % m,
+                            'static inline struct %s stdvec_copy_%s(struct %s* s) { struct %s d; d._size = s->_size; d._cap = s->_size; d._data = (%s*)malloc(d._cap * sizeof(%s)); __CPROVER_assume(d._data != 0); return d; }'
+                            % (t.name, m, t.name, t.name, ect, ect))
+            self.note('std::vector copy modelled: same length, ARBITRARY contents (sound for memory safety only), trusted')
+            return '%s(%s)' % (h, self.addr(args[0]))
         # copy / move construction = struct copy
         if len(args) == 1:
             at = self.ty(args[0]['type']).noref()
-            if at.kind == 'rec' and at.name == t.name and re.search(r'\((const )?[^,()]*&&?\)', sig):
+            plist = split_top(sig[sig.find('(') + 1: sig.rfind(')')]) if '(' in sig else []
+            if at.kind == 'rec' and at.name == t.name and len(plist) == 1 and plist[0].rstrip().endswith('&'):
                 self.check_struct_copy(t, e)
                 return self.expr(args[0])
         if t.key.startswith('std::pair<'):
@@ -1554,6 +1682,8 @@ class Lowerer:
                        'std::string', 'std::unique_ptr', 'std::unordered_map')
 
     def check_struct_copy(self, t, e):
+        if t.key.startswith('std::vector<'):
+            raise Unsupported('copy of std::vector outside a declaration at %s' % where(e))
         if any(x in t.key for x in self.NONTRIVIAL_COPY) and 'VecView' not in t.key:
             raise Unsupported('copy of owning type %s at %s' % (t.key, where(e)))
         if t.key not in self.struct_copy_ok:
@@ -1582,6 +1712,11 @@ class Lowerer:
         if name in ('__builtin_clz', '__builtin_clzll', '__builtin_ctz', '__builtin_popcount', '__builtin_clzl',
                     '__builtin_inf', '__builtin_nan', '__builtin_fabs', '__builtin_huge_val'):
             return '%s(%s)' % (name, ', '.join(self.expr(a) for a in args))
+        if name in ('malloc', 'free') and n == 1:
+            return '%s(%s)' % (name, self.expr(args[0]))
+        if name == 'iota' and n == 3:
+            self.note('std::iota dropped: target contents left arbitrary (over-approximation) at %s' % where(e))
+            return '((void)0)'
         if name in ('min', 'max') and n == 2:
             t = rt.noref()
             ct = self.cty(t)
@@ -1665,6 +1800,29 @@ class Lowerer:
                 return '(%s)->_data[(%s)->_size - 1]' % (obj, obj)
             if name == 'front':
                 return '(%s)->_data[0]' % obj
+            et = self.parse_type(split_top(key[len('std::vector<'):-1])[0])
+            ect = self.cty(et)
+            m = mangle(ect)
+            if name in ('resize', 'reserve') and len(args) >= 1:
+                h = self.helper('stdvec_%s_%s' % (name, m),
+                                'static inline void stdvec_%s_%s(struct %s* v, unsigned long n) { if (n > v->_cap) { v->_cap = n; v->_data = (%s*)malloc(v->_cap * sizeof(%s)); __CPROVER_assume(v->_data != 0); } %s }'
+                                % (name, m, bt.name, ect, ect, 'v->_size = n;' if name == 'resize' else ''))
+                self.note('std::vector::%s modelled with fresh buffer of arbitrary contents (trusted, over-approximation)' % name)
+                return '%s(%s, %s)' % (h, obj, self.expr(args[0]))
+            if name == 'push_back' and len(args) == 1:
+                h = self.helper('stdvec_push_back_%s' % m,
+                                'static inline void stdvec_push_back_%s(struct %s* v, %s x) { if (v->_size >= v->_cap) { v->_cap = v->_cap == 0 ? 1 : 2 * v->_cap; v->_data = (%s*)malloc(v->_cap * sizeof(%s)); __CPROVER_assume(v->_data != 0); } v->_data[v->_size++] = x; }'
+                                % (m, bt.name, ect, ect, ect))
+                self.note('std::vector::push_back modelled: reallocation loses old contents (arbitrary), trusted')
+                return '%s(%s, %s)' % (h, obj, self.expr(args[0]))
+            if name == 'operator=' and len(args) == 1:
+                vals = self.init_list_exprs(args[0])
+                if vals is not None:
+                    hr = self.helper('stdvec_resize_%s' % m,
+                                     'static inline void stdvec_resize_%s(struct %s* v, unsigned long n) { if (n > v->_cap) { v->_cap = n; v->_data = (%s*)malloc(v->_cap * sizeof(%s)); __CPROVER_assume(v->_data != 0); } v->_size = n; }'
+                                     % (m, bt.name, ect, ect))
+                    parts = ['%s(%s, %d)' % (hr, obj, len(vals))] + ['(%s)->_data[%d] = %s' % (obj, k, v) for k, v in enumerate(vals)]
+                    return '(%s)' % ', '.join(parts)
         if key.startswith('std::atomic<'):
             self.need_record(bt)
             self.note('std::atomic operation %s lowered sequentially (seq_cst, single thread)' % name)
